@@ -41,8 +41,8 @@ def reset_wt():
 
 ENV = dict(os.environ, CARGO_TARGET_DIR=os.path.join(TGT, "plain"), CARGO_INCREMENTAL="0", CARGO_NET_OFFLINE="true")
 
-def cargo_test(filt, extra=""):
-    r = subprocess.run(f"cargo test -p ipa-core --lib --offline -- {filt} {extra}", shell=True, cwd=WT, env=ENV, capture_output=True, text=True)
+def cargo_test(filt, extra="", cargo_args=""):
+    r = subprocess.run(f"cargo test -p ipa-core --lib --offline {cargo_args} -- {filt} {extra}", shell=True, cwd=WT, env=ENV, capture_output=True, text=True)
     out = r.stdout + r.stderr
     m = re.search(r"test result: (\w+)\. (\d+) passed; (\d+) failed", out)
     return r.returncode, (m.groups() if m else None), out
@@ -59,11 +59,12 @@ if "--skip-confirm" not in ARGS and demo_filter and demo_file:
     # demo with patch
     sh(f"git -C {WT} apply {SD}/patch.diff")
     sh(f"cat {SD}/demo.rs >> {WT}/{demo_file}")
-    rc, tr, out = cargo_test(demo_filter)
+    dca = meta.get("demo_cargo_args", "")
+    rc, tr, out = cargo_test(demo_filter, cargo_args=dca)
     res["demo_with_patch"] = dict(rc=rc, result=tr, tail=out[-600:])
     # demo without patch
     sh(f"git -C {WT} apply -R {SD}/patch.diff")
-    rc2, tr2, out2 = cargo_test(demo_filter)
+    rc2, tr2, out2 = cargo_test(demo_filter, cargo_args=dca)
     res["demo_without_patch"] = dict(rc=rc2, result=tr2, tail=out2[-300:])
     res["demo_confirms"] = bool(tr and int(tr[2]) > 0 and tr2 and int(tr2[2]) == 0 and int(tr2[1]) > 0)
     reset_wt()
